@@ -60,9 +60,9 @@ def observables(case, with_zero=True):
             EnergySecondMoment(evaluation_times=ev)]
 
 
-def run_case(case):
+def run_case(case, config=None):
     kt = case["kt"]
-    return ic.run_recorded(case, dict(krylov_tolerance=kt), observables=observables(case, case["obs0"]))
+    return ic.run_recorded(case, dict(krylov_tolerance=kt), observables=observables(case, case["obs0"]), config=config)
 
 
 def oracle(case, out):
@@ -82,17 +82,21 @@ def oracle(case, out):
     first = 0 if case["obs0"] else 1
     want_times = [t / T for t in case["times"]][first:]
     worst = 0.0
+    scale = float(np.linalg.norm(exact[0]))          # 1 unless the user handed in an unnormalised vector
+    state_only = abs(scale - 1.0) > 1e-12            # (accepted as is; the evolution is linear: compare the state)
     got_times = res.get_result_times("state")
     if len(got_times) != len(want_times) or any(abs(a - b) > 1e-9 for a, b in zip(got_times, want_times)):
         return f"state reported at times {got_times}, expected the grid {want_times}", worst
     nops = [np.real(np.diag(ic.embed(ic.NN, q, n))) for q in range(n)]
     for pos, k in enumerate(range(first, len(case["times"]))):
-        allowed = tol_of(k, kt)
+        allowed = tol_of(k, kt) * max(scale, 1.0)
         v = res.state[pos].data.numpy()
         err = float(np.linalg.norm(v - exact[k]))
         worst = max(worst, err / allowed)
         if not err <= allowed:
             return f"state at index {k} (t={case['times'][k]}) differs from exact evolution by {err:.3e} > {allowed:.3e}", worst
+        if state_only:
+            continue
         occ = res.occupation[pos].numpy()
         occ_ex = np.array([float(np.sum(nops[q] * np.abs(exact[k]) ** 2)) for q in range(n)])
         eo = float(np.max(np.abs(occ - occ_ex)))
@@ -178,13 +182,45 @@ def gen(rng, nmax, max_steps):
     c = ic.gen_case(rng, nmin=1, nmax=nmax, max_steps=max_steps)
     c["kt"] = rng.choice([1e-6, 1e-8, 1e-10, 1e-10, 1e-12])
     c["obs0"] = rng.random() < 0.75
+    if c["init"] is not None and rng.random() < 0.3:
+        c["init_scale"] = rng.choice([0.5, 2.0, 1.001])     # user vectors are neither rejected nor normalised
     return c
+
+
+def gen_delay(rng):
+    """pulse / delay / pulse: a strong pulse creates Rydberg population on 2-4 interacting atoms, then the
+    lasers are off (omega = delta = phi = 0 exactly) for one or two steps, then a second pulse. During
+    the delay only Σ U_ij n_i n_j acts: the state at the end of the delay must carry its phases."""
+    n = rng.randint(2, 4)
+    ndelay = rng.choice([1, 1, 2])
+    pre, post = rng.randint(1, 2), rng.randint(1, 2)
+    nsteps = pre + ndelay + post
+    dts = [rng.choice([10.0, 20.0, 37.0]) for _ in range(nsteps)]
+    times = [0.0]
+    for d in dts:
+        times.append(times[-1] + d)
+    omega = [[rng.uniform(8.0, 25.0) for _ in range(n)] for _ in range(nsteps)]
+    delta = [[rng.uniform(-6.0, 6.0) for _ in range(n)] for _ in range(nsteps)]
+    p = rng.choice([0.0, rng.uniform(-3.0, 3.0)])
+    phi = [[p] * n for _ in range(nsteps)]
+    delay = list(range(pre, pre + ndelay))
+    for k in delay:
+        omega[k], delta[k], phi[k] = [0.0] * n, [0.0] * n, [0.0] * n
+    U = [[0.0] * n for _ in range(n)]
+    for i in range(n):
+        for j in range(i + 1, n):
+            U[i][j] = U[j][i] = rng.uniform(5.0, 40.0)
+    return dict(n=n, nsteps=nsteps, grid_kind="delay", times=times, omega=omega, delta=delta, phi=phi,
+                pmode="zero" if p == 0.0 else "const", U=U, masked=[r[:] for r in U], slm_end=0.0, init=None,
+                delay=delay, kt=rng.choice([1e-8, 1e-10]), obs0=True)
 
 
 def check(rep: Report, tier: str, seed: int) -> None:
     rep.rule = ("cases = hand-built SequenceData: 1-8 atoms, 1-6 steps, uniform/non-uniform/fractional grids, per-atom "
                 "omega/delta/phi rows (pairwise distinct), random U, SLM mask ending inside a step / on a grid point / at a "
-                "mid-point / after the end, optional random initial state, krylov_tolerance 1e-6..1e-12; malformed stream: "
+                "mid-point / after the end, laser-off steps (omega = delta = 0 exactly, U != 0) incl. a dedicated pulse/delay/pulse "
+                "stream, optional random initial state (also unnormalised: accepted as is) with a second run on the same "
+                "config object and a bit-for-bit check of the caller's tensor, krylov_tolerance 1e-6..1e-12; malformed stream: "
                 "short, empty, zero-duration grids. non-trivial = at least 2 steps; distinct = distinct (grid, slm_end, n)")
     rep.assumptions = [
         "C07 accuracy clause + C06 (KrylovContract: stepper.apply returns exp(-i dt H) psi within eps*|psi|) — assumed in "
@@ -197,16 +233,30 @@ def check(rep: Report, tier: str, seed: int) -> None:
     rng = seeded(seed * 7919 + 101)
     import torch
     torch.manual_seed(seed)
-    n_cases = 90 if tier == "quick" else 3000
+    n_cases = 80 if tier == "quick" else 3000
     cases, outs, due = [], [], []
     worst = 0.0
-    for i in range(n_cases):
-        case = gen(rng, 8 if i % 7 == 0 else 6, 6)
+    n_delay = 14 if tier == "quick" else 300
+    for i in range(n_cases + n_delay):
+        case = gen(rng, 8 if i % 7 == 0 else 6, 6) if i < n_cases else gen_delay(rng)
         try:
             out = run_case(case)
+            if out["status"] == "ok" and case["init"] is not None:
+                # a second run with the SAME config / initial-state object: the caller's tensor must not have
+                # been touched by the first one, and the second run must be as right as the first
+                if out["init_unchanged"] is False:
+                    rep.fail("the caller's initial StateVector tensor was modified in place by the run",
+                             ic.ser_case(case), klass=None)
+                out2 = run_case(case, config=out["config"])
+                rep.count("second_runs_same_config")
+                msg2 = (f"second run failed with {out2['status']}" if out2["status"] != "ok" else oracle(case, out2)[0])
+                if msg2:
+                    rep.fail("second run with the same config object: " + msg2, ic.ser_case(case, second_run=True))
         except Exception as e:  # the real code misbehaving is a finding candidate
             rep.fail(f"real SVBackendImpl raised {type(e).__name__}: {e}", ic.ser_case(case))
             continue
+        if case.get("delay"):
+            rep.count("cases_with_laser_off_step")
         cases.append(case)
         outs.append(out)
         due.append(case["obs0"])
@@ -286,7 +336,11 @@ def replay(rep: Report, path: str) -> int:
         case = f["data"]
         try:
             out = run_case(case)
+            if case.get("second_run") and out["status"] == "ok":
+                out = run_case(case, config=out["config"])
             msg = f"run failed with {out['status']}" if out["status"] != "ok" else oracle(case, out)[0]
+            if not msg and out.get("init_unchanged") is False:
+                msg = "the caller's initial StateVector tensor was modified in place by the run"
         except Exception as e:
             msg = f"raised {type(e).__name__}: {e}"
         print("replay:", msg or "property holds on this input now")
